@@ -15,13 +15,37 @@ func countOf(l *Loaded, pkg, fn string) int {
 		panic(err)
 	}
 	res := Explore(l.prog, f, nil, ExploreOpts{Workers: 1, Solver: "z3", TimeoutMs: 10000, Budget: 10_000_000})
-	_ = res
-	return int(lastCount)
+	return int(res.Ret)
 }
 
-var lastCount int64
+var libOverlay = func(files ...string) map[string][]string {
+	return map[string][]string{"libvore": append([]string{"common/lib.go"}, files...)}
+}
 
 func init() {
+	properties["C01"] = &PropertySpec{ID: "C01",
+		Rule: "shapes: every atom kind alone, every combinator over literal atoms, global-pattern programs (list in harness/C01/c01.go); text: all ASCII strings of length 0..T (quick T=3, thorough T=5); literal bytes symbolic (printable ASCII) in the symbolic-literal group",
+		Assumptions: []string{"ASCII text", "loop ids returned by math/rand.Int63 are pairwise distinct", "programs on which the property statement is silent (empty literals, empty/unbound back-references, named loops, whole file/line/word) are assumed away"},
+		Groups: []JobGroup{
+			{Name: "c01-concrete-literals", Overlay: libOverlay("C01/c01.go"), Pkg: "libvore", Entry: "VerifC01",
+				Args: func(tier string, l *Loaded) [][]int64 {
+					T := int64(3)
+					if tier == "thorough" {
+						T = 5
+					}
+					return seqArgs(countOf(l, "libvore", "VerifC01Count"), T, 0, 0)
+				}},
+			{Name: "c01-symbolic-literals", Overlay: libOverlay("C01/c01.go"), Pkg: "libvore", Entry: "VerifC01",
+				Args: func(tier string, l *Loaded) [][]int64 {
+					T := int64(3)
+					if tier == "thorough" {
+						T = 4
+					}
+					return seqArgs(countOf(l, "libvore", "VerifC01Count"), T, 3, 0)
+				}},
+			{Name: "c01-twin", Overlay: libOverlay("C01/c01.go"), Pkg: "libvore", Entry: "VerifC01", Twin: true,
+				Args: func(tier string, l *Loaded) [][]int64 { return [][]int64{{0, 2, 0, 1}} }},
+		}}
 	properties["T00"] = &PropertySpec{ID: "T00", Groups: []JobGroup{{
 		Name: "toy2", Overlay: map[string][]string{"libvore": {"toy/toy2.go"}}, Pkg: "libvore", Entry: "VerifToy2",
 		Args: func(tier string, l *Loaded) [][]int64 { return [][]int64{{2}, {3}} },
